@@ -1,6 +1,13 @@
 package main
 
 func init() {
+	register("T4", propMeta{Explanation: "tmp"}, func(c *Check) {
+		ruleLoadBody(c, "C01-R4", "C14-R5", "C18-R5", "C18-R6", "C18-R7")
+		ruleVersionGates(c, "C18-R3")
+		ruleValidateTransformTable(c, "C18-R5")
+		ruleCutoffProvenance(c, "C04-R6")
+		ruleCutoffOrder(c, "C04-R7")
+	})
 	register("T3", propMeta{Explanation: "tmp"}, func(c *Check) {
 		ruleReadDBILoop(c, "C01-R3", false)
 		ruleSendDump(c, "C01-R3", "C06-R4", "C01-R5")
